@@ -37,7 +37,10 @@ def build():
 
 # ------------------------------------------------------------------ model checks of the spec
 def model_checks(ctx, thorough):
-    jobs = [("IntMathLaws", "MC_IntMath.cfg"), ("IntMathWideLaws", "MC_IntMathWide.cfg"),
+    if os.environ.get("VERIF_SKIP_MC") == "1":     # development aid for mutant runs: the model checks do not depend on the repo
+        ctx.extra["model_checks_skipped"] = True
+        return
+    jobs = [("IntMathLaws", "MC_IntMath.cfg" if thorough else "MC_IntMath_q.cfg"), ("IntMathWideLaws", "MC_IntMathWide.cfg"),
             ("IntMathImpl", "MC_IntMathImpl_scaled.cfg"),
             ("IntMathImpl", "MC_IntMathImpl_real.cfg" if thorough else "MC_IntMathImpl_real8.cfg")]
     guards = [("IntMathImpl", "MC_IntMathImpl_bug_%s.cfg" % b, "ImplEqualsDefinition") for b in BUG_GUARDS]
@@ -61,12 +64,14 @@ def model_checks(ctx, thorough):
 
 
 # ------------------------------------------------------------------ recording
-def record(ctx, binary, sections, tag):
+def record(ctx, binary, sections, tag, extra=(), env=None):
     """Run one harness process per section.  Returns list of (section, path, rc, output)."""
+    e = {"UBSAN_OPTIONS": UBSAN}
+    e.update(env or {})
+
     def one(s):
-        path = os.path.join(ctx.workdir, "%s_%s.ndjson" % (tag, s))
-        rc, out = vlib.run_harness(binary, ["record", path, ctx.tier, ctx.seed, s], timeout=3000,
-                                   env={"UBSAN_OPTIONS": UBSAN})
+        path = os.path.join(ctx.workdir, "%s_%s.ndjson" % (tag, s.replace(":", "_")))
+        rc, out = vlib.run_harness(binary, ["record", path, ctx.tier, ctx.seed, s] + list(extra), timeout=3000, env=e)
         return (s, path, rc, out)
     return vlib.parallel(one, sections, workers=PAR)
 
@@ -150,6 +155,57 @@ def judge(ctx, recs, module_cfg, tag, chunk_bytes=2500000):
     return out
 
 
+def selftest(ctx, recs, module_cfg, tag, corrupt, want):
+    """Vacuity guard of the judge: corrupt(rec) -> corrupted copy or None; every corrupted record must
+    be rejected.  `want` = minimal number of corrupted records (Infra otherwise)."""
+    bad_in = []
+    seen = {}
+    for s, l in recs:
+        r = json.loads(l)
+        key = (r["f"], r.get("w"), r.get("S"), r.get("k"), r.get("g"))
+        if seen.get(key, 0) >= 2 or len(l) > 20000:
+            continue
+        c = corrupt(r)
+        if c is not None:
+            seen[key] = seen.get(key, 0) + 1
+            bad_in.append(("selftest", json.dumps(c, separators=(",", ":"))))
+    if len(bad_in) < want:
+        raise vlib.Infra("judge self-test: only %d records could be corrupted" % len(bad_in))
+    saved = dict(ctx.extra)
+    rej = judge(ctx, bad_in, module_cfg, tag, chunk_bytes=10 ** 9)
+    n = ctx.extra.get("rejected_records", 0) - saved.get("rejected_records", 0)
+    for k in ("judge_chunks", "rejected_records", "trace_states"):
+        if k in saved:
+            ctx.extra[k] = saved[k]
+        else:
+            ctx.extra.pop(k, None)
+    if n != len(bad_in):
+        raise vlib.Infra("judge self-test: %d of %d corrupted records were accepted" % (len(bad_in) - n, len(bad_in)))
+    ctx.extra["judge_selftest"] = {"corrupted_records": len(bad_in), "rejected": n}
+
+
+def corrupt_c06(r):
+    """flip one recorded result: value -> value + 1, nothing -> 0, bool -> not"""
+    r = dict(r)
+    if r["w"] == 0:
+        if not r["rs"]:
+            return None
+        i = len(r["rs"]) // 2
+        v = r["rs"][i]
+        x = (r["xs"][i] if r["xs"] else r["x0"] + i)
+        # only where the specification demands a result
+        if r["f"] in ("log2",) and x == 0:
+            return None
+        if r["f"] in ("diff", "next_power_of_2", "power_of_2", "shifted_mask", "ceil_div_signed", "div", "interval_distance"):
+            r["rs"] = [1000001 if j == i else w for j, w in enumerate(r["rs"])]      # an exception is never explained
+            return r
+        r["rs"] = [((0 if v == 1000000 else (1 - v if r["f"] in ("is_power_of_2", "bit_test") else v + 1)) if j == i else w)
+                   for j, w in enumerate(r["rs"])]
+        return r
+    r["ex"] = 1
+    return r
+
+
 def describe(rec, at):
     if rec.get("w") == 0:
         d = {k: rec[k] for k in ("f", "S", "D", "n", "a", "b", "c")}
@@ -217,6 +273,7 @@ def run(ctx):
         raise vlib.Infra("the harness recorded nothing")
     ctx.evaluations += count(ctx, recs)
     sample(ctx, recs)
+    selftest(ctx, recs, JUDGE, "c06self", corrupt_c06, 40)
     bads = judge(ctx, recs, JUDGE, "c06")
     report(ctx, bads, PID)
     ctx.traces_validated += ctx.extra.get("judge_chunks", 0)
